@@ -1,0 +1,46 @@
+//go:build verif
+
+package keyper
+
+import (
+	"context"
+
+	"github.com/jackc/pgx/v4/pgxpool"
+
+	"github.com/shutter-network/rolling-shutter/rolling-shutter/keyper/kprconfig"
+	"github.com/shutter-network/rolling-shutter/rolling-shutter/p2p"
+)
+
+// VerifEonPubKeyHandler wraps the unexported eonPubKeyHandler so that one polling step can
+// be driven from outside the package.
+type VerifEonPubKeyHandler struct {
+	pkh *eonPubKeyHandler
+}
+
+// VerifNewEonPubKeyHandler builds an eonPubKeyHandler exactly the way the keyper does: the
+// options are applied to the default options (broadcast on, no callback) and validated by
+// validateOptions, then newEonPubKeyHandler reads them from a KeyperCore that carries only
+// the given config, database pool, messaging and options.
+func VerifNewEonPubKeyHandler(
+	config *kprconfig.Config,
+	dbpool *pgxpool.Pool,
+	messaging p2p.Messaging,
+	options ...Option,
+) (*VerifEonPubKeyHandler, error) {
+	opts := newDefaultOptions()
+	for _, option := range options {
+		if err := option(opts); err != nil {
+			return nil, err
+		}
+	}
+	if err := validateOptions(opts); err != nil {
+		return nil, err
+	}
+	core := &KeyperCore{config: config, dbpool: dbpool, messaging: messaging, opts: opts}
+	return &VerifEonPubKeyHandler{pkh: newEonPubKeyHandler(core)}, nil
+}
+
+// QueryAndHandleNewEonPubKeys runs one iteration of the handler's polling loop.
+func (v *VerifEonPubKeyHandler) QueryAndHandleNewEonPubKeys(ctx context.Context) error {
+	return v.pkh.queryAndHandleNewEonPubKeys(ctx)
+}
